@@ -144,7 +144,7 @@ def replay_state(arg):
         if b.shape != want.shape:
             res["violations"].append("%s: shape %s after the rewrite, %s expected" % (name, b.shape, want.shape))
             continue
-        dev = float(np.abs(b - want).max() / (np.abs(want).max() + 1e-300))
+        dev = float(common.above_noise(np.abs(b - want).max()) / (np.abs(want).max() + 1e-300))
         res["dev"] = max(res["dev"], dev)
         if not dev <= (1e-6 if name.startswith("electron") else 1e-8):
             res["violations"].append("%s changes under a rewrite that keeps the functions (last step %s): max relative deviation %.3g"
@@ -181,7 +181,7 @@ def replay_symmetry(arg):
     def chk(name, a, b, tol=1e-10, scale=None):
         res["n"] += 1
         sc = (np.abs(a).max() if scale is None else scale) + 1e-300
-        dev = float(np.abs(a - b).max() / sc) if a.shape == b.shape else float("inf")
+        dev = float(common.above_noise(np.abs(a - b).max()) / sc) if a.shape == b.shape else float("inf")
         res["dev"] = max(res["dev"], dev if np.isfinite(dev) else 0)
         if not dev <= tol:
             res["violations"].append("%s: max relative deviation %.3g" % (name, dev))
@@ -295,7 +295,7 @@ def replay_linear(arg):
         a, b, c = f(sA), f(sB), f(sC)
         want = lam * a + mu * b
         res["n"] += 1
-        dev = float(np.abs(c - want).max() / (np.abs(a).max() + np.abs(b).max() + 1e-300))
+        dev = float(common.above_noise(np.abs(c - want).max()) / (np.abs(a).max() + np.abs(b).max() + 1e-300))
         res["dev"] = max(res["dev"], dev)
         if not dev <= 1e-9:
             res["violations"].append("%s.construct_array_contraction is not linear in the contraction coefficients (l=%d, %d primitives): %.3g"
